@@ -155,10 +155,18 @@ class CoopLock(object):
         self.sched = sched
         self.owner = None
         self.contended = 0
+        self.gave_up = 0
 
     def acquire(self, blocking=True, timeout=-1):
         s = self.sched
         i = getattr(s.local, 'tid', None)
+        if self.owner is not None and (not blocking or (timeout is not None and timeout >= 0)) and self.gave_up < 50:
+            # a non-blocking or timed acquire of a held lock: the holder is descheduled for as long as the scheduler
+            # likes (schedules know no clock), so ANY finite timeout may run out first - that is the schedule explored.
+            # (After 50 such failures the lock falls back to waiting, so that retry loops terminate.)
+            self.contended += 1
+            self.gave_up += 1
+            return False
         while self.owner is not None:
             if i is None:
                 raise HarnessError('CoopLock used outside a scheduled thread')
